@@ -563,3 +563,33 @@ def c18(tier, replay=None):
     chk.part("outcomes", **info.get("worker", {}).get("outcomes_last_worker", {}))
     chk.assumptions += ["'never crashes on arbitrary text' is observed by a mutation driver, not proved", "systems with a type wider than 4096 bits are accepted unchecked (counted as ok-unchecked)"]
     return chk.finish()
+
+
+# ------------------------------------------------------------------------------------------------
+def c19(tier, replay=None):
+    chk = Check("C19", tier, "model_checking")
+    T = chk.thorough()
+    trace = chk.work / "trace.ndjson"
+    if replay:
+        rep = json.loads(Path(replay).read_text())
+        pv.write_ndjson(trace, [rep["detail"]["record"]])
+        info = {"records": 1, "rules": {}}
+    else:
+        p = pv.pv(["c19", "--out", trace, "--roundtrip", 6000 if T else 800, "--max-operand-width", 4 if T else 3, "--max-width", 10 if T else 8])
+        info = json.loads(p.stdout.strip().splitlines()[-1])
+    st = batch_check(chk, "Trace_C01", trace, lambda rj, rec: {"why": rj["why"], "loc": rj.get("loc", ""), "rule": rec.get("info", {}).get("rule", "")},
+                     lambda rj, rec: {"record": rec, "tlc": rj}, shards=14)
+    for rule, s in info.get("rules", {}).items():
+        if s["condition_holds"] == 0:
+            raise ToolError(f"rule {rule}: no assignment within the bounds satisfies its side condition (vacuous)")
+    chk.cov["traces_validated_against_impl"] = st["records"]
+    chk.cov["evaluations"] = st["records"]
+    chk.cov["distinct_nontrivial"] = st["records"]
+    chk.cov["rule"] = ("every rule of create_rewrites() x every assignment of operand widths (1..3/4), other widths (1..8/10) and signs for which the real "
+                       "eval_condition holds: both patterns instantiated, lowered with from_arith and compared by TLC under ALL operand values (<= 10 bits "
+                       "exhaustive); plus to_arith/from_arith round trips of generated add/sub/mul/shift expressions over extended operands")
+    sample_lines(chk, trace, 3, lambda r: {"id": r["id"], "info": r.get("info"), "nodes": [[n["op"], n["w"], n["a"], n["by"]] for n in r["nodes"]]})
+    chk.part("harness", records=info["records"])
+    chk.part("rules", **info.get("rules", {}))
+    chk.add_states(0, 0)
+    return chk.finish()
